@@ -39,6 +39,7 @@ type response struct {
 	Header map[string]string
 	Body   string
 	DC     bool // --domains-crawl with the planted hosts as domains
+	DAC    bool // --disable-assets-capture
 	Direct bool // skip archiver.ProcessBody: attach the sniffed MIME type and the spooled body directly (what Zeno's unit tests do)
 }
 
@@ -51,7 +52,7 @@ type result struct {
 
 // fetch runs the real post-fetch code on a simulated 200 response for rawURL.
 func fetch(rawURL string, hops, maxHops int, r response) (res result) {
-	config.VerifSet(&config.Config{MaxHops: maxHops, MaxRedirect: 20, WorkersCount: 1,
+	config.VerifSet(&config.Config{MaxHops: maxHops, MaxRedirect: 20, WorkersCount: 1, DisableAssetsCapture: r.DAC,
 		NoStdoutLogging: true, NoStderrLogging: true, NoFileLogging: true})
 	domainscrawl.Reset()
 	if r.DC {
@@ -87,7 +88,7 @@ func fetch(rawURL string, hops, maxHops int, r response) (res result) {
 		sp.Write([]byte(r.Body))
 		u.SetBody(sp)
 		u.RewindBody()
-	} else if err := archiver.ProcessBody(u, false, false, maxHops, tmpDir); err != nil {
+	} else if err := archiver.ProcessBody(u, r.DAC, r.DC, maxHops, tmpDir); err != nil {
 		res.Panic = "engine: ProcessBody: " + err.Error()
 		return
 	}
